@@ -475,11 +475,53 @@ def classify_known(ctx, ent0):
             for tok in (d[3], d[4]):
                 try:
                     f = float(tok[1:])
-                    if not (math.isinf(f) or math.isnan(f)) and math.isinf(float("%.15g" % f)):
+                    g = float("%.15g" % f)
+                    if not (math.isinf(f) or math.isnan(f)) and f != 0.0 and (math.isinf(g) or abs(g) < 2.2250738585072014e-308):
                         ids.append("C02-number-overflows-at-15-digits")
                 except (ValueError, OverflowError):
                     pass
     return ids
+
+
+def literal_domain(ent0):
+    """names non-empty and unique in their scope (units in the model, components model-wide, variables in their
+    component), every string valid UTF-8 without C0 control characters other than TAB LF CR"""
+    strings = []
+
+    def ok_str(b):
+        try:
+            t = b.decode("utf-8")
+        except UnicodeDecodeError:
+            return False
+        return not any(ord(ch) < 32 and ch not in "\t\n\r" for ch in t)
+    if not unS(ent0[1]):
+        return False
+    unames = [unS(u[1]) for u in ent0[4]]
+    if any(not n for n in unames) or len(set(unames)) != len(unames):
+        return False
+    cnames = []
+
+    def comp(c):
+        cnames.append(unS(c[1]))
+        vn = [unS(v[1]) for v in c[7]]
+        if any(not n for n in vn) or len(set(vn)) != len(vn):
+            return False
+        return all(comp(k) for k in c[9])
+    if not all(comp(c) for c in ent0[5]):
+        return False
+    if any(not n for n in cnames) or len(set(cnames)) != len(cnames):
+        return False
+    toks = re.findall(r"s[0-9a-f]*", " ".join(flatten_tokens(ent0)))
+    return all(ok_str(unS(t)) for t in toks if re.fullmatch(r"s([0-9a-f]{2})*", t))
+
+
+def flatten_tokens(x):
+    if isinstance(x, list):
+        out = []
+        for y in x:
+            out += flatten_tokens(y)
+        return out
+    return [x]
 
 
 def crossed_names(ent0):
@@ -576,6 +618,7 @@ def evaluate(ctx, case, cpp_line, ml_line, names, stats):
     stats["with_imports"] += ml["PB"][3] == "0"
     stats["with_hierarchy"] += ml["PB"][4] == "0"
     stats["with_connections"] += ml["PB"][5] == "0"
+    stats["printable_in_proved_fragment"] += pb_fixed and ml["PB"][3] == "1" and ml["PB"][5] == "1"
     known = classify_known(ctx, ent0)
 
     def uniform_cids(ent_text):
@@ -679,6 +722,20 @@ def evaluate(ctx, case, cpp_line, ml_line, names, stats):
                 problems.append(("known:" + matched, what, {}))
             else:
                 problems.append(("violation", what + (" (valid=%s printable=%s)" % (valid, pb_fixed)), {"d0": d0[:3000], "d1": d1[:3000]}))
+        pass
+    elif literal_domain(ent0):
+        # the property's wider, literal reading ("names non-empty and unique in their scope, strings XML character data")
+        # without printability: the content may legitimately change (each such case violates a conjunct of `printable`
+        # that has a _refuted witness); the classes that are FINDINGS are reported as such
+        stats["literal_domain_not_printable"] += 1
+        c0 = dump_content(dump_tree(d0), True)
+        c1 = dump_content(dump_tree(d1), False)
+        if c0 != c1:
+            stats["literal_domain_content_differs"] += 1
+            for k in known:
+                ctx.known_finding(k, "content of the re-parsed model differs from the original (API-built model with non-empty unique names and plain strings, not validator-accepted)")
+                break
+    if in_domain:
         # the model's own theorem instance: printable => load (print m) = canon m with no issue
         if pb_fixed and doc == ml["PX"]:
             cn = canon_ent(parse_ent(ml["CN"]), lambda s: s, tags=False)
@@ -743,7 +800,8 @@ def shrink(ctx, case, cpp, mdl, names, what):
 
 def new_stats():
     return {k: 0 for k in ("skipped", "out_of_scope", "printable", "valid", "flat", "with_imports", "with_hierarchy",
-                           "with_connections", "in_domain", "glue_errors", "mixed_cid_print_differs", "cyclic_units")}
+                           "with_connections", "in_domain", "glue_errors", "mixed_cid_print_differs", "cyclic_units",
+                           "literal_domain_not_printable", "literal_domain_content_differs", "printable_in_proved_fragment")}
 
 
 def run(ctx):
